@@ -141,7 +141,7 @@ class C08(Property):
         "one case in six is heterogeneous (mixed classes - including the two 3-D perturbed classes that share one data layout -, mode counts or dimensions). The object is written with to_file into a "
         "per-process scratch directory (in half of the cases over the file left by the previous case) and read with from_file. Oracle: round trip - if writing returns, reading must return the same "
         "lengths, classes, byte-identical records, equal times in order, and library equality; if writing raises the case counts as "
-        "'write refused'. Non-trivial = at least one droplet and (>= 2 members/droplets, an empty member, a None width, a perturbed "
+        "'write refused'. History: the written object is then edited in place (a droplet's setters, or item replacement) and written and read again - the file must describe the edited object. Non-trivial = at least one droplet and (>= 2 members/droplets, an empty member, a None width, a perturbed "
         "class or dim != 2); distinct = distinct spec hash."
     )
     assumptions = [
@@ -233,6 +233,40 @@ class C08(Property):
             except Exception as exc:  # noqa: BLE001
                 eq = False
             ctx.require(eq, f"library-eq:{kind}", "byte-identical content but `==` is False")
+        # --- history: change the object that has just been written (in place), write it again, read it back -------------
+        if ctx.violations or ndrops == 0 or spec["hetero"]:
+            return
+        if kind == "Emulsion":
+            holder = obj
+        elif kind == "EmulsionTimeCourse":
+            holder = next(e for e in obj.emulsions if len(e))
+        elif kind == "DropletTrack":
+            holder = obj.droplets
+        else:
+            holder = next(tr for tr in obj if len(tr)).droplets
+        pick = spec.get("dim", 0) % len(holder)
+        d0 = holder[pick]
+        mode = "replace" if (len(holder) >= 2 and ctx_hash_even(spec)) else "setter"
+        if mode == "replace":  # item assignment with another member's copy (count unchanged)
+            other = holder[(pick + 1) % len(holder)].copy()
+            holder[pick] = other
+        else:  # attribute setters of the stored droplet
+            d0.radius = 0.5 * float(d0.radius) + 1.0 if np.isfinite(0.5 * float(d0.radius) + 1.0) else 1.0
+            newpos = np.array(d0.position, float)
+            newpos[-1] = 0.25  # only the last coordinate: axisymmetric droplets must stay on the z-axis
+            d0.position = newpos
+        ctx.cls(f"rewrite-after-{mode}")
+        now, tnow = records(obj, kind)
+        if now == before:
+            return  # the edit did not change anything (e.g. identical members)
+        try:
+            obj.to_file(path)
+            back2 = cls_obj.from_file(path, progress=False) if kind in ("EmulsionTimeCourse", "DropletTrackList") else cls_obj.from_file(path)
+        except Exception as exc:  # noqa: BLE001
+            ctx.fail(f"rewrite-raises:{kind}:{type(exc).__name__}", f"writing/reading the edited object failed: {type(exc).__name__}: {exc}")
+            return
+        after2, tafter2 = records(back2, kind)
+        ctx.require(after2 == now and tafter2 == tnow, f"rewrite-stale:{kind}", f"object edited in place after a first write ({mode}), written again: the file does not read back as the edited object")
 
 
 PROP = C08()
